@@ -302,6 +302,8 @@ func cmdMatrix(args []string) int {
 	kind, repo, verif, match := "seeded", "/repo", "/verif", ""
 	for i := 0; i+1 < len(args); i += 2 {
 		switch args[i] {
+		case "-v":
+			matrixVerbose = args[i+1] != "0"
 		case "-match":
 			match = args[i+1]
 		case "-kind":
@@ -379,6 +381,9 @@ func cmdMatrix(args []string) int {
 				}
 				seen := map[string]bool{}
 				for _, l := range strings.Split(string(out), "\n") {
+					if matrixVerbose && (strings.HasPrefix(l, "VIOLATION C") || strings.HasPrefix(l, "UNDECIDED C")) {
+						fmt.Printf("  [%s] %s\n", id, l)
+					}
 					if strings.HasPrefix(l, "FAIL-KEY ") {
 						k := strings.TrimPrefix(l, "FAIL-KEY ")
 						if !base[id][k] {
@@ -467,3 +472,5 @@ func cmdMatrix(args []string) int {
 	fmt.Printf("%d %s changes x %d checks\n", len(patches), kind, len(ids))
 	return exit
 }
+
+var matrixVerbose bool
